@@ -427,7 +427,7 @@ def rule_fallible(ctx, rep):
     # conversions known to be fallible must stay in fallible actions
     MUST = {"integer": "Integer::new", "binary_integer": "try_binary", "octal_integer": "try_octal", "hex_integer": "try_hex",
             "fixed_point": "FixedPoint::parse", "real_literal": "try_parse", "daytime": "from_hms", "date_literal": "from_calendar_date",
-            "direct_variable": "try_from", "signed_integer__positive": "positive", "signed_integer__negative": "negative"}
+            "direct_variable": "try_from", "signed_integer__positive": "SignedInteger::new", "signed_integer__negative": "SignedInteger::new"}
     for name, fn in sorted(MUST.items()):
         rl = g.rules.get(name)
         if not rl:
